@@ -54,6 +54,11 @@ pub fn byte_muts(len: usize) -> Vec<ByteMut> {
         ByteMut::VecShrink(1),
         ByteMut::VecShrink(u32::MAX),
         ByteMut::VecGrow,
+        ByteMut::ElemWordOnes { last: false, word: 0 },
+        ByteMut::ElemWordOnes { last: false, word: 1 },
+        ByteMut::ElemWordOnes { last: false, word: 2 },
+        ByteMut::ElemWordOnes { last: true, word: 0 },
+        ByteMut::ElemWordOnes { last: true, word: 1 },
     ]
 }
 
@@ -198,7 +203,7 @@ pub fn test_case(case: &Case) -> Result<CaseInfo, Fail> {
 
 pub fn run(tier: Tier, seed: u64) -> i32 {
     let ctx = Ctx::new("C08", tier, seed, "fault_enumeration");
-    ctx.set_rule("systematic enumeration: for every message index of the corrupted sender (n=2: both parties x both evaluator choices; n=3: sampled role assignments, all in thorough) x every byte-level mutator (empty, truncations, bit flips, random, extend, length-prefix := 2^k, all-ones) x every structure-aware mutator on the decoded value tree (leaf flips/sets/random, Option toggles, sequence length -1/+1/0/1 and end swaps at every nesting level; long sequences at first/middle/last element) x drop x duplicate, plus (corrupted garbler) the same byte-level mutators and every MAC-vector length 0..n+1 applied to the plaintext of its garbled rows before encryption (hook tap garble_plain), and the byte-level mutators applied to the aShare bit/MAC string before it is committed to (commitment and opening consistent; hook tap fashare_dm_vec), plus crash of the peer before each of its messages; oracle: every honest party ends in Ok or Err - a panic, a wait on peers that have all terminated, or an allocation peak above honest peak + 64 x delivered bytes + 4 MiB (serde caps each pre-allocation at 1 MiB; <=3 nested sequence levels) is a violation; non-trivial = the altered bytes differ from the original and were delivered (or drop / crash); distinct by hash of the fault description");
+    ctx.set_rule("systematic enumeration: for every message index of the corrupted sender (n=2: both parties x both evaluator choices; n=3: sampled role assignments, all in thorough) x every byte-level mutator (empty, truncations, bit flips, random, extend, length-prefix := 2^k, all-ones, and for messages that look like n equal-sized elements: shrink / grow consistently, one 4-byte word of the first / last element := 0xffffffff) x every structure-aware mutator on the decoded value tree (leaf flips/sets/random, Option toggles, sequence length -1/+1/0/1 and end swaps at every nesting level; long sequences at first/middle/last element) x drop x duplicate, plus (corrupted garbler) the same byte-level mutators and every MAC-vector length 0..n+1 applied to the plaintext of its garbled rows before encryption (hook tap garble_plain), and the byte-level mutators applied to the aShare bit/MAC string before it is committed to (commitment and opening consistent; hook tap fashare_dm_vec), plus crash of the peer before each of its messages; oracle: every honest party ends in Ok or Err - a panic, a wait on peers that have all terminated, or an allocation peak above honest peak + 64 x delivered bytes + 4 MiB (serde caps each pre-allocation at 1 MiB; <=3 nested sequence levels) is a violation; non-trivial = the altered bytes differ from the original and were delivered (or drop / crash); distinct by hash of the fault description");
     ctx.assume("bounded time is bounded scheduler steps; CPU blow-ups inside one poll are only caught by the step budget (reported inconclusive)");
     ctx.assume("single corrupted party; the corrupted party otherwise runs the honest code");
     let mut all = vec![];
